@@ -466,9 +466,14 @@ class AdapterModel:
                         if inner[0] == "agg" and inner[1].endswith("Option::None"):
                             return "None"
                         if inner[0] == "agg" and inner[1].endswith("Option::Some"):
-                            if inner[2] and inner[2][0][0] == "agg" and inner[2][0][1].endswith("Result::Err") and \
-                                    any(c[3] in self.up_sites for c in expr_calls(inner[2][0])):
-                                return "Err"        # Some(Err(e)) built from the upstream poll's own error
+                            if inner[2] and inner[2][0][0] == "agg" and inner[2][0][1].endswith("Result::Err"):
+                                if any(c[3] in self.up_sites for c in expr_calls(inner[2][0])):
+                                    return "Err"        # Some(Err(e)) built from the upstream poll's own error
+                                # the payload may come out of an inlined helper's verdict (a join): what it is on THIS path
+                                from lib_flow import PathEval
+                                r_ = PathEval(b, path).local_expr(0)
+                                if any(c[3] in self.up_sites for c in expr_calls(r_)):
+                                    return "Err"
                             return "Some"
                         if inner[0] == "agg" and inner[1] == "tuple" and not inner[2]:
                             return "Done"
